@@ -67,6 +67,13 @@ PROPS = {
         "namespace": "Richchk.Props.C06",
         "trusted": ["Spec/Layouts.lean: hand transcription of the Scenario.chk section layouts"],
     },
+    "C08": {
+        "targets": ["RichchkModel.Props.C08"],
+        "harness": "str_h",
+        "theorems_file": "RichchkModel/Props/C08.lean",
+        "namespace": "Richchk.Props.C08",
+        "trusted": ["hand model Model/StrEdit.lean of the two editors and the generator, tied by the addstr/tostrx correspondence; Python str == its ASCII bytes for 7-bit text"],
+    },
     "C12": {
         "targets": ["RichchkModel.Props.C12"],
         "harness": "codecs_h",
